@@ -28,7 +28,8 @@ type cacheOp struct {
 }
 
 type cacheIn struct {
-	Ops []cacheOp `json:"ops"`
+	Ops   []cacheOp `json:"ops"`
+	Const bool      `json:"const"` // every real invocation yields the same (byte-identical) result
 }
 
 // three call sites: runtime.Caller(0) and the Cache call share a line, so the site is known
@@ -97,6 +98,9 @@ func runCache(raw json.RawMessage) interface{} {
 				counter++
 				cur = op.KA
 				v := carapace.ActionValues("r" + strconv.Itoa(counter))
+				if in.Const {
+					v = carapace.ActionValues("r0")
+				}
 				if op.Msg {
 					return carapace.Batch(v, carapace.ActionMessage("failed")).ToA()
 				}
@@ -183,6 +187,7 @@ func genCache(r *rng, tier string) interface{} {
 	}
 	tuples := [][][]string{tuple(), tuple(), tuple()}
 	timeouts := []int{10, 100, -1, 1000}
+	in.Const = r.chance(20)
 	nops := 3 + r.intn(12)
 	for i := 0; i < nops; i++ {
 		switch k := r.intn(20); {
